@@ -164,12 +164,12 @@ def run(ctx, report):
     from common import Only
     from rules import c05, c06, c09, c10
     # equality ignores the content "on the strength of the always-signed invariant": the rules that invariant rests on
-    c05.run(ctx, Only(report, {"TS": "TS", "WRAP": "WRAP", "VALID": "VALID", "INV-RLP": "INV-RLP", "SIGN": "SIGN"}))
+    c05._own_run(ctx, Only(report, {"TS": "TS", "WRAP": "WRAP", "VALID": "VALID", "INV-RLP": "INV-RLP", "SIGN": "SIGN"}))
     c06.run(ctx, Only(report, {"ATOMIC": "ATOMIC"}))
-    c09.run(ctx, Only(report, {"BUILD": "SIZE-BUILD"}))
-    c10.run(ctx, Only(report, {"IDD": "IDD"}))
+    c09._own_run(ctx, Only(report, {"BUILD": "SIZE-BUILD"}))
+    c10._own_run(ctx, Only(report, {"IDD": "IDD"}))
     from rules import c01, c12
     # "a record equals its decode-after-encode image": the writer frames exactly what the reader consumes, and the public-key reader is the one decode uses
-    c12.run(ctx, Only(report, {"FORM": "FORM"}, keys=lambda r, k: k.startswith("encode")))
+    c12._own_run(ctx, Only(report, {"FORM": "FORM"}, keys=lambda r, k: k.startswith("encode")))
     c01.pubkey_rule(ctx, Only(report, {"PUBKEY": "PUBKEY"}))
 
